@@ -13,7 +13,8 @@ RULE = ('Hypothesis draws configuration (transports, allow_upgrades, limits) and
         'wrong payload, binary, empty, oversize, nothing), closure or fault before the probe, '
         'between probe and UPGRADE and after, concurrent polls and application sends, second '
         'upgrade attempts on upgraded sessions, WebSocket-first opens, upgrade requests naming '
-        'transport=polling. Oracle: server.transport(sid) at every quiet point equals the model '
+        'transport=polling, Upgrade headers that are not exactly websocket (token lists, other '
+        'case, other protocols). Oracle: server.transport(sid) at every quiet point equals the model '
         '(websocket iff ws-first or the first two frames of an accepted upgrade socket were PING '
         'probe then UPGRADE); refused attempts are never accepted; after failed handshakes '
         'everything queued is delivered by polling (C03 completeness) and a later correct '
@@ -111,9 +112,16 @@ def monitor(ex, final):
                     raise V(ex, 'disallowed-transport-used', 'websocket-frames',
                             'session %d: frames written to a WebSocket, transports=%s' % (
                                 s.ord, ex.config.get('transports')))
+        if not ws_ok:
+            for r in s.polls:
+                if getattr(r, 'ws_attempt', False):
+                    raise V(ex, 'disallowed-transport-used', 'websocket-accepted',
+                            'session %d: the server answered a GET with WebSocket events '
+                            'although transports=%s' % (s.ord, ex.config.get('transports')))
         if not poll_ok:
             for r in [s.open_req] + s.polls:
-                if r is not None and r.done and r.status == 200:
+                if r is not None and r.done and r.status == 200 and \
+                        'transport=websocket' not in r.query:
                     raise V(ex, 'disallowed-transport-used', 'polling-200',
                             'session %d: polling request answered 200, transports=%s' % (
                                 s.ord, ex.config.get('transports')))
@@ -208,6 +216,7 @@ PROFILE = {
     'wrong_step_pct': 3,
     'autopong': [True],
     'open_transports': ['polling', 'polling', 'polling', 'websocket'],
+    'odd_upgrade_hdr_pct': 25,
 }
 
 
@@ -233,6 +242,10 @@ def summarize(ex):
                 cls.add('upgrade-completed')
             if att['conn'].peer_closed or att['conn'].failed:
                 cls.add('upgrade-socket-closed-by-client')
+            if getattr(att['conn'], '_odd_upgrade', None):
+                cls.add('upgrade-header-not-exactly-websocket')
+        if any(getattr(p, '_odd_upgrade', None) for p in s.polls):
+            cls.add('upgrade-header-not-exactly-websocket')
     return {'sessions': len(ex.sessions),
             'attempts': sum(len(s.upg_attempts) for s in ex.sessions)}, nt, sorted(cls)
 
